@@ -260,9 +260,13 @@ def run (ctx):
     send = rsn[0]
     inport = _loop_cmp_in_port
     base = [(inport, False), (_bit('OFPPC_NO_FLOOD'), 0)]
+    cfgattr = (lambda e: isinstance(e, ast.Attribute) and e.attr == 'config')
     def R (over):
       ms = [(k_, v_) for k_, v_ in over] + [b for b in base if not any(b[0] is o[0] for o in over)]
-      return q.reach_under(repo, swmod, g, q.Env({'out_port': P[pname]}, ms), sw)
+      # the port's config word as a value too (the bit may be selected through a local: `port.config & skip_config`)
+      nf = [v_ for k_, v_ in ms if k_ is base[1][0] or getattr(k_, '__closure__', None) and k_.__code__ is base[1][0].__code__]
+      ms.append((cfgattr, nf[0] if nf else 0))
+      return q.reach_under_cp(repo, swmod, g, q.Env({'out_port': P[pname]}, ms), sw)
     ctx.ob('R-DOM', op, "%s copies to ports other than the ingress" % pname, send in R([]), "send reachable for other ports", (swmod, st), 'D7')
     ctx.ob('R-DOM', op, "%s excludes the ingress port" % pname, send not in R([(inport, True)]), "send unreachable when the port is the ingress port" if send not in R([(inport, True)]) else "a flooded frame is sent back out its ingress port", (swmod, st), 'D7')
     blocked = send not in R([(_bit('OFPPC_NO_FLOOD'), 16)])
